@@ -28,3 +28,26 @@ func (s *Supervisor) VerifWorkerErrs(addr string) int {
 	}
 	return w.errs.ItemCount()
 }
+
+// VerifWorkerRaw is the raw bookkeeping of one tracked worker.
+type VerifWorkerRaw struct {
+	Addr       string
+	HasRpc     bool
+	Ready      bool
+	RecentErrs int
+}
+
+// VerifWorkersRaw returns the raw bookkeeping of every tracked worker, read
+// from the fields (not through the supervisor's own counting helpers).
+func (s *Supervisor) VerifWorkersRaw() []VerifWorkerRaw {
+	ret := make([]VerifWorkerRaw, 0, len(s.workers))
+	for addr, info := range s.workers {
+		r := VerifWorkerRaw{Addr: addr, RecentErrs: info.errsRecent.ItemCount()}
+		if info.rpc != nil && info.rpc.NetMach != nil {
+			r.HasRpc = true
+			r.Ready = info.rpc.NetMach.Is1(ssW.Ready)
+		}
+		ret = append(ret, r)
+	}
+	return ret
+}
